@@ -139,11 +139,13 @@ func typeKey(t types.Type) string { return types.TypeString(t, nil) }
 // zero value of a type
 func (x *Exec) zero(t types.Type) Value {
 	if n, ok := t.(*types.Named); ok {
-		switch typeKey(n) {
-		case "bytes.Buffer":
-			return &BufObj{}
-		case "time.Time":
-			return TimeVal{unix: x.c.st.Const(64, 0), off: x.c.st.Const(64, 0)}
+		if o := n.Obj(); o.Pkg() != nil {
+			switch {
+			case o.Name() == "Buffer" && o.Pkg().Path() == "bytes":
+				return &BufObj{}
+			case o.Name() == "Time" && o.Pkg().Path() == "time":
+				return TimeVal{unix: x.c.st.Const(64, 0), off: x.c.st.Const(64, 0)}
+			}
 		}
 	}
 	if a, ok := t.(*types.Alias); ok {
